@@ -14,25 +14,35 @@ from vt.checks import c18_tables as T
 from vt.ref import flowvpls, wire
 
 LOCAL_ADDR4 = '127.0.0.1'
-EXTRA_FAMILIES = [(1, 133), (2, 133), (1, 134), (25, 65)]
+EXTRA_FAMILIES = [(1, 133), (2, 133), (1, 134), (2, 134), (25, 65)]
 HANDLED_BY_CALLBACK = (ValueError, IndexError)   # what every announce_* callback answers `error` for by name
-HANG_LIMIT_S = float(os.environ.get('C18_HANG_LIMIT_S', '6'))   # the slowest legitimate parse (1100 list members) takes ~0.5 s
+HANG_LIMIT_S = float(os.environ.get('C18_HANG_LIMIT_S', '4'))   # the slowest legitimate parse (1100 list members) takes ~0.5 s
 
 
 class Hang(BaseException):
     """raised by the alarm inside an entry point which does not return (BaseException: `except Exception` must not eat it)"""
 
 
-def guarded(fn, *args):
+def _guarded_once(limit, fn, args):
     def on_alarm(signum, frame):
         raise Hang()
-    old = signal.signal(signal.SIGALRM, on_alarm)
-    signal.setitimer(signal.ITIMER_REAL, HANG_LIMIT_S)
+    # CPU time of this process, not wall time: an endless loop burns CPU whatever the load of the machine is
+    old = signal.signal(signal.SIGPROF, on_alarm)
+    signal.setitimer(signal.ITIMER_PROF, limit)
     try:
         return fn(*args)
     finally:
-        signal.setitimer(signal.ITIMER_REAL, 0)
-        signal.signal(signal.SIGALRM, old)
+        signal.setitimer(signal.ITIMER_PROF, 0)
+        signal.signal(signal.SIGPROF, old)
+
+
+def guarded(fn, *args):
+    """run an entry point; Hang if it burns HANG_LIMIT_S of CPU, and again three times that on a second attempt"""
+    try:
+        return _guarded_once(HANG_LIMIT_S, fn, args)
+    except Hang:
+        reset_state()
+        return _guarded_once(3 * HANG_LIMIT_S, fn, args)
 
 
 # ---------------------------------------------------------------------------------------------
@@ -49,7 +59,7 @@ def session_text(s):
     a = 'ipv6 mpls-vpn; }'
     if a not in t:
         raise core.HarnessError('c01.NEIGHBOR changed: family line not found')
-    return t.replace(a, 'ipv6 mpls-vpn; ipv4 flow; ipv6 flow; ipv4 flow-vpn; l2vpn vpls; }')
+    return t.replace(a, 'ipv6 mpls-vpn; ipv4 flow; ipv6 flow; ipv4 flow-vpn; ipv6 flow-vpn; l2vpn vpls; }')
 
 
 def peer_open(s):
@@ -160,11 +170,11 @@ def render(g, form, devs):
         blocks = {'top': [], 'match': [], 'then': []}
         for n, t in segs:
             blocks['match' if n == 'destination' else 'then'].append(t)
-        for d in appended + tail:
+        for d in appended + ([] if form == 'flat' else tail):
             for st in statements(g, d.text):
                 blocks[d.block or 'match'].append(st)
         if form == 'flat':
-            api = ' '.join(['route'] + blocks['top'] + blocks['match'] + blocks['then'])
+            api = ' '.join(['route'] + blocks['top'] + blocks['match'] + blocks['then'] + [d.text for d in tail])
             for d in devs:
                 if d.post:
                     api = d.post(api)
@@ -185,7 +195,11 @@ def render(g, form, devs):
             return None, 'l2vpn { ' + txt + ' }'
         txt = (head[0] if head else 'route') + ' { ' + ''.join(f'{x} ; ' for x in body) + '}'
         return None, 'static { ' + txt + ' }'
-    flat = ' '.join([t for _, t in segs] + [d.text for d in appended] + [d.text for d in tail])
+    if kind == 'attributes':
+        nl = [t for n, t in segs if n == 'nlri']
+        flat = ' '.join([t for n, t in segs if n != 'nlri'] + [d.text for d in appended] + [d.text for d in tail if d.seg != 'nlri'] + nl + [d.text for d in tail if d.seg == 'nlri'])
+    else:
+        flat = ' '.join([t for _, t in segs] + [d.text for d in appended] + [d.text for d in tail])
     for d in devs:
         if d.post:
             flat = d.post(flat)
@@ -228,7 +242,7 @@ def run_api(g, text):
     try:
         routes = guarded(api_call, g, text)
     except Hang:
-        return dict(status='hang', msg=f'no answer within {HANG_LIMIT_S:g} s', routes=None)
+        return dict(status='hang', msg=f'no answer after {4 * HANG_LIMIT_S:g} s of CPU in two attempts', routes=None)
     except HANDLED_BY_CALLBACK as e:
         return dict(status='refused', how='raised-' + type(e).__name__, msg=_exc_text(e), routes=None)
     except Exception as e:  # noqa: BLE001
@@ -302,6 +316,12 @@ class StubReactor:
         return []
 
 
+def cb_command(text):
+    from exabgp.environment import getenv
+
+    return ('peer * announce ' if getenv().api.version == 6 else 'announce ') + text
+
+
 def run_cb(g, text):
     """the real API.process -> dispatch -> announce_* callback; -> dict(status, msg, routes)"""
     reset_state()
@@ -309,7 +329,7 @@ def run_cb(g, text):
     reactor = StubReactor()
     api.reactor = reactor
     def drive():
-        api.process(reactor, 'svc', 'announce ' + text)
+        api.process(reactor, 'svc', cb_command(text))
         for coro in reactor.asynchronous.queue:
             try:
                 while True:
@@ -319,7 +339,7 @@ def run_cb(g, text):
     try:
         guarded(drive)
     except Hang:
-        return dict(status='hang', msg=f'no answer within {HANG_LIMIT_S:g} s', routes=None)
+        return dict(status='hang', msg=f'no answer after {4 * HANG_LIMIT_S:g} s of CPU in two attempts', routes=None)
     except Exception as e:  # noqa: BLE001
         for coro in reactor.asynchronous.queue:
             coro.close()
@@ -369,7 +389,7 @@ def run_config(section):
     try:
         cfg, ok = guarded(exa.parse_config_file, path)
     except Hang:
-        return dict(status='hang', msg=f'Configuration.reload() did not return within {HANG_LIMIT_S:g} s', routes=None)
+        return dict(status='hang', msg=f'Configuration.reload() did not return after {4 * HANG_LIMIT_S:g} s of CPU in two attempts', routes=None)
     except Exception as e:  # noqa: BLE001
         return dict(status='exception', etype=type(e).__name__, msg='escaped Configuration.reload(): ' + _exc_text(e), routes=None)
     if ok is True:
@@ -629,7 +649,8 @@ def abstract(g, devs, without=None):
 
 
 def kindclass(kind):
-    return kind.split(':', 1)[0]
+    k = kind.split(':', 1)[0]
+    return 'accepted' if k.startswith('accepted-') else k
 
 
 def judge(g, path, form, devs, out, sess):
@@ -648,9 +669,8 @@ def judge(g, path, form, devs, out, sess):
     if st == 'protocol':
         return 'protocol', [(None, 'reply-protocol', out['msg'])]
     if st == 'refused':
-        if all(d.cls == 'ok' for d in devs):
-            for d in devs or [None]:
-                viols.append((d.key if d else None, 'refused-valid', f'valid definition refused ({out.get("how")}: {out["msg"]})'))
+        if all(d.cls == 'ok' for d in devs) and not any(R.get('mixed') for R in abstract(g, devs)):
+            viols.append((None, 'refused-valid', f'valid definition refused ({out.get("how")}: {out["msg"]})'))
         return 'refused:' + str(out.get('how')), viols
     # accepted
     routes = out['routes']
@@ -708,6 +728,8 @@ def judge(g, path, form, devs, out, sess):
                 detail = 'the UPDATE is the one of the definition without it'
             viols.append((d.key, kind, f'a value the wire format cannot hold was accepted; {detail}'))
         return 'accepted-bad', viols
+    if any(R.get('mixed') for R in Rs):
+        return 'accepted-mixed', [(None, 'accepted-mixed-afi', 'IPv4 and IPv6 components in one flow definition were accepted (one NLRI has one address family)')]
     if enc_err:
         viols.append((None, f'encode-raises:{enc_err[1]}', f'accepted, then UpdateCollection.messages() raises {enc_err[2]} (session {SESSIONS[enc_err[0]]})'))
     seen = set()
@@ -742,7 +764,7 @@ def run_case(case, sess):
         text = cfg_text
     elif path == 'cb':
         out = run_cb(g, api_text)
-        text = 'announce ' + api_text
+        text = cb_command(api_text)
     else:
         out = run_api(g, api_text)
         text = api_text
@@ -761,6 +783,10 @@ def pair_ok(a, b):
         return False
     if a.post and b.post:
         return False
+    if a.seg and a.seg == b.seg:
+        return False
+    if (a.post and b.tail) or (b.post and a.tail):
+        return False   # a stray bracket after an unclosed one closes it
     return True
 
 
@@ -812,6 +838,86 @@ def pair_plan(tier):
             ('vpls', 'api', 'flat', False, True), ('vpls', 'config', 'nested', False, False), ('fam4u', 'api', 'flat', False, False), ('attributes', 'api', 'flat', False, False)]
 
 
+# ---------------------------------------------------------------------------------------------
+# two definitions in one Adj-RIB-Out (one configuration / two API commands): every ordered pair of a small alphabet
+# ---------------------------------------------------------------------------------------------
+MULTI = [
+    ('plain', 'route 10.0.{i}.0/24 next-hop 10.255.0.1', dict(afi=1)),
+    ('path-information', 'route 10.0.{i}.0/24 next-hop 10.255.0.1 path-information 1', dict(afi=1, pid=1)),
+    ('path-information-dotted', 'route 10.0.{i}.0/24 next-hop 10.255.0.1 path-information 0.0.0.2', dict(afi=1, pid=2)),
+    ('label', 'route 10.0.{i}.0/24 next-hop 10.255.0.1 label 3', dict(afi=1, labels=(3,))),
+    ('rd', 'route 10.0.{i}.0/24 next-hop 10.255.0.1 rd 65000:1 label 3', dict(afi=1, labels=(3,), rd=T.rd0(65000, 1))),
+    ('next-hop-self', 'route 10.0.{i}.0/24 next-hop self', dict(afi=1)),
+    ('med', 'route 10.0.{i}.0/24 next-hop 10.255.0.1 med 5', dict(afi=1)),
+    ('v6', 'route 2001:db8:{i}::/48 next-hop 2001:db8:ffff::1', dict(afi=2)),
+    ('v6-path-information', 'route 2001:db8:{i}::/48 next-hop 2001:db8:ffff::1 path-information 1', dict(afi=2, pid=1)),
+]
+
+
+def multi_cases():
+    return [dict(multi=[i, j], path=path) for path in ('api', 'config') for i in range(len(MULTI)) for j in range(len(MULTI))]
+
+
+def run_multi(case, sess):
+    i, j = case['multi']
+    texts = [MULTI[i][1].format(i=1), MULTI[j][1].format(i=2)]
+    g = T.grammars()['route4']
+    routes = []
+    text = ' ; '.join(texts)
+    if case['path'] == 'api':
+        for t in texts:
+            out = run_api(g, t)
+            if out['status'] != 'accepted':
+                return 'multi-' + out['status'], [('parse', f'{out["status"]}: {out.get("msg")}')], text
+            routes += out['routes']
+    else:
+        out = run_config('static { ' + ' '.join(t + ' ;' for t in texts) + ' }')
+        if out['status'] != 'accepted':
+            return 'multi-' + out['status'], [(out['status'] + (':' + out['etype'] if out.get('etype') else ''), f'two valid routes in one static section: {out.get("msg")}')], text
+        routes = out['routes']
+    viols = []
+    for sidx in sess:
+        s = SESSIONS[sidx]
+        ap = set(c01.ADDPATH_FAMS) if s['addpath'] else set()
+        try:
+            msgs = encode(routes, sidx)
+        except core.HarnessError:
+            raise
+        except Exception as e:  # noqa: BLE001
+            viols.append((f'encode-raises:{type(e).__name__}', f'both accepted, then generating the UPDATEs raises {_exc_text(e)} (session {s})'))
+            continue
+        want = []
+        for k, (name, _, spec) in zip((1, 2), (MULTI[i], MULTI[j])):
+            afi = spec['afi']
+            labels, rd = spec.get('labels'), spec.get('rd')
+            safi = 128 if rd is not None else 4 if labels is not None else 1
+            pid = (spec.get('pid') or 0) if (afi, safi) in ap else None
+            addr = f'10.0.{k}.0' if afi == 1 else f'2001:db8:{k}::'
+            want.append((wire.nlri_key(wire.nlri_ip(afi, safi, addr, 24 if afi == 1 else 48, pid, labels, rd.hex() if rd else None)), labels))
+        got = []
+        try:
+            for mtype, body in msgs:
+                u = flowvpls.decode_update_x(body, asn4=s['our_asn4'] and s['peer_asn4'], addpath=ap)
+                got += [(wire.nlri_key(n), n[3]) for n in u['nlri']] + [(wire.nlri_key(n), n[3]) for _, _, _, ns in u['mp_reach'] for n in ns]
+        except wire.RefError as e:
+            viols.append((f'undecodable:{e.code}/{e.subcode}', str(e)))
+            continue
+        if sorted(got, key=repr) != sorted(want, key=repr):
+            viols.append(('nlri-set', f'NLRIs on the wire {_short(sorted(got, key=repr))} != written {_short(sorted(want, key=repr))} (session {sidx})'))
+    seen, out_v = set(), []
+    for k, w in viols:
+        if k not in seen:
+            seen.add(k)
+            out_v.append((k, w))
+    return 'multi-accepted', out_v, text
+
+
+def multi_signature(case, kind):
+    i, j = case['multi']
+    a, b = sorted((MULTI[i][0], MULTI[j][0]))
+    return f'{case["path"]}:two-routes:{a}+{b}:{kind}'
+
+
 def signature(case, g, devkey, kind):
     devs = case['devs']
     if len(devs) == 1 or devkey is not None:
@@ -839,12 +945,21 @@ def _record(res, sig, what, case):
 def worker(args):
     tier, phase, shard, nshards, single_index = args
     singles, pairs = enumerate_cases(tier)
-    cases = singles if phase == 'single' else pairs
+    cases = singles if phase == 'single' else pairs if phase == 'pair' else multi_cases()
     sess = sess_for(tier)
     G = T.grammars()
     res = {'exec': 0, 'viol': {}, 'outcomes': {}, 'nontrivial': 0, 'samples': [], 'single_index': [], 'explained': 0, 'by_path': {}, 'hang_pairs_skipped': 0}
     for idx, case in enumerate(cases):
         if idx % nshards != shard:
+            continue
+        if phase == 'multi':
+            lab, mv, text = run_multi(case, sess)
+            res['exec'] += 1
+            res['nontrivial'] += 1
+            res['by_path']['two-routes'] = res['by_path'].get('two-routes', 0) + 1
+            res['outcomes'][f'{case["path"]}:{lab}'] = res['outcomes'].get(f'{case["path"]}:{lab}', 0) + 1
+            for kind, what in mv:
+                _record(res, multi_signature(case, kind), f'{what}  [{text}]', case)
             continue
         g = G[case['g']]
         if phase == 'pair' and any((case['path'], case['g'], case['form'], k, 'hang') in single_index for k in case['devs']):
@@ -925,6 +1040,8 @@ def run(ctx: core.Ctx) -> None:
         index = frozenset(agg['single_index'])
         for res in pool.imap_unordered(worker, [(tier, 'pair', i, nshards, index) for i in order]):
             _merge(ctx, res, agg)
+        for res in pool.imap_unordered(worker, [(tier, 'multi', i, 16, None) for i in range(16)]):
+            _merge(ctx, res, agg)
     finally:
         pool.close()
         pool.join()
@@ -951,6 +1068,9 @@ def run(ctx: core.Ctx) -> None:
 
 def replay(case):
     sess = list(range(len(SESSIONS)))
+    if 'multi' in case:
+        lab, mv, text = run_multi(case, sess)
+        return [{'signature': multi_signature(case, kind), 'what': what} for kind, what in mv]
     g = T.grammars()[case['g']]
     lab, viols, text = run_case(case, sess)
     out = []
